@@ -10,7 +10,7 @@ MCKHeaps  == {0, 2}
 MCVSizes  == {0, 1, 3}
 MCLimits  == {0, O, O + 1, 2 * O, 2 * O + 1, 2 * O + 3, 3 * O + 4, UMAX}
 MCInitCaps == {0, 3}
-MCAddl    == {0, 1, 4, UMAX}
+MCAddl    == {0, 1, 4, UMAX, -1000000}   \* the last passes len + n, fails inside the table
 MCOps == {"insert", "try_insert", "get", "get_entry", "get_lru", "touch", "peek",
           "peek_entry", "peek_lru", "peek_mru", "contains", "remove", "remove_entry",
           "remove_lru", "remove_mru", "mutate", "set_max_size", "retain", "clear",
@@ -29,5 +29,5 @@ TOps    == {"insert", "get", "remove", "remove_lru", "reserve", "shrink_to", "sh
 (* quick tier: halved constants *)
 QLimits   == {0, O + 1, 2 * O + 3, UMAX}
 QVSizes   == {0, 3}
-QAddl     == {0, 4, UMAX}
+QAddl     == {0, 4, UMAX, -1000000}
 =============================================================================
